@@ -16,16 +16,20 @@ check("C02", "model_checking",
       "for every (workers, max-workers) pair up to 3, two concurrent Stop callers, targeter failure, durations, pacer stop, slow consumers; "
       "the AttackContract monitor (SeqExact, CloseOnce/CloseAfterAll, OneInitiator, NoLeak, Ends) runs beside it and never rejects, the "
       "liveness clause holds under fairness and the historic two-step Stop is shown to violate it. The real Attacker then runs thousands of "
-      "TLC-exported and random timed scripts in virtual time plus a real-time Stop stress; every recorded run is validated by TLC against the contract.",
+      "TLC-exported and random timed scripts in virtual time plus a real-time Stop stress; every recorded run is validated by TLC against the contract. "
+      "The command's result pump (Pump.tla: two-stage signal handling) is model-checked and bound to the real processAttack by scripted runs and by "
+      "real attacks behind it with signals during pacing and wind-down; a panic of an attack goroutine counts as a violation.",
       ATTACK_NOTE, ATTACK_TECH, "DESIGN.md section 5 (C02), Appendix A")
 check("C03", "model_checking",
       "Same model and bubbles as C02, validated against the Cap and Eager clauses: in-flight (targeter calls minus results taken) never "
       "exceeds max-workers at any settled instant (one-event slack between), and a released hit whose wait is over has started unless all "
-      "capacity is busy; scripts biased to slow transports/consumers and initial workers below/at/above the maximum.",
+      "capacity is busy; scripts biased to slow transports/consumers and initial workers below/at/above the maximum. The runs of the exported "
+      "scripts are additionally validated against Attack.tla itself (internal actions as silent steps): a mismatch is reported as model drift.",
       ATTACK_NOTE, ATTACK_TECH, "DESIGN.md section 5 (C03), Appendix A")
 check("C04", "model_checking",
       "Same model and bubbles, validated against PaceArgs (hits = 0,1,2,.., elapsed exact and non-decreasing), ObeyWait (no start before the "
-      "wait returned for it), Deadline (never consulted after the duration), PacerStop and Ends; adversarial scripted pacers and durations.",
+      "wait returned for it), Deadline (never consulted after the duration), PacerStop and Ends; adversarial scripted pacers and durations; plus "
+      "real-time runs (lower bounds only) under both runtime timer-channel semantics (default and GODEBUG=asynctimerchan=1).",
       ATTACK_NOTE, ATTACK_TECH, "DESIGN.md section 4 (C04), Appendix A")
 
 check("C10", "model_checking",
